@@ -202,9 +202,11 @@ func newBufferedSectionWriter(w io.WriterAt, begPos, maxBytes int64,
 
 			req, ok := <-reqCh
 			if ok {
+				err = nil
 				buf, pos = req.buf, req.pos
 				if len(buf) > 0 {
-					nBytes, err := w.WriteAt(buf, pos)
+					var nBytes int
+					nBytes, err = w.WriteAt(buf, pos)
 					if err == nil && s != nil {
 						s.reportBytesWritten(uint64(nBytes))
 					}
@@ -276,6 +278,12 @@ func (b *bufferedSectionWriter) Flush() error {
 
 func (b *bufferedSectionWriter) Stop() error {
 	if b.stopCh != nil {
+		if b.err == nil {
+			// Collect the result of the last outstanding write.
+			if lastWrite, ok := <-b.resCh; ok {
+				b.err = lastWrite.err
+			}
+		}
 		close(b.stopCh)
 		close(b.reqCh)
 		<-b.doneCh
